@@ -35,12 +35,28 @@ from pest.grammar import Rule
 from pest.grammar import Sequence
 from pest.grammar import SkipUntil
 from pest.grammar import String
+from pest.grammar.rule import ATOMIC
+from pest.grammar.rule import COMPOUND
 from pest.grammar.rules.special import Any
 
 if TYPE_CHECKING:
     from collections.abc import Mapping
 
     from pest.grammar import Expression
+
+
+def never_skips_trivia(rule: Rule, rules: Mapping[str, Rule]) -> bool:
+    """True if no implicit WHITESPACE/COMMENT can be matched directly inside `rule`.
+
+    `(!"x" ~ ANY)*` also matches implicit trivia before every `ANY` and between
+    iterations, which `SkipUntil` does not. The rewrite is only sound where trivia
+    is certain to be off: in atomic and compound-atomic rules (the reference
+    implementation only applies "skip" to those, too), in the implicitly atomic
+    WHITESPACE and COMMENT, and in grammars that define neither.
+    """
+    if rule.modifier & (ATOMIC | COMPOUND) or rule.name in ("WHITESPACE", "COMMENT"):
+        return True
+    return not any(name in rules for name in ("WHITESPACE", "COMMENT", "SKIP"))
 
 
 def skip(expr: Expression, rules: Mapping[str, Rule]) -> Expression:
